@@ -67,6 +67,7 @@ type Op struct {
 }
 
 type Res struct {
+	Items [][2]Val `json:"items"`
 	V   Val    `json:"v"`
 	Ok  *bool  `json:"ok"`
 	N   *int64 `json:"n"`
@@ -776,6 +777,88 @@ func checkLine(ln *Line, o options) result {
 		}
 		if n != want {
 			viol("fn-count: t%d[%d] %s k=%d ran the user function %d times, want %d", h.T, h.I, h.Op.Op, h.Op.K, n, want)
+		}
+	}
+
+	// range-check (C07): every completed top-level Range / Items of the concurrent phase
+	//   (1) hands out no key twice;
+	//   (2) hands out only pairs (k, v) such that v was stored under k: by the setup (and still
+	//       live when the concurrent phase began) or by a call that began before the traversal
+	//       returned;
+	//   (3) with the visit-everything visitor, hands out every key that the setup left live and
+	//       without expiry, and that no call of the concurrent phase could have touched (no keyed
+	//       call on it, no Clear, no DeleteExpired, no mutating visitor anywhere), with its value.
+	{
+		touched := map[int]bool{}
+		global := false
+		for idx := range ln.History {
+			h := &ln.History[idx]
+			switch h.Op.Op {
+			case "Clear":
+				global = true
+			case "Range", "Items":
+				if h.Op.Visitor != "" && h.Op.Visitor != "all" && !strings.HasPrefix(h.Op.Visitor, "stop") {
+					global = true
+				}
+			}
+			if keyed(h.Op.Op) {
+				touched[h.Op.K] = true
+			}
+		}
+		for idx := range ln.History {
+			h := &ln.History[idx]
+			if h.Sub != 0 || h.Ret < 0 || (h.Op.Op != "Range" && h.Op.Op != "Items") || h.Res.Items == nil {
+				continue
+			}
+			seen := map[int64]Val{}
+			for _, p := range h.Res.Items {
+				k := p[0].I
+				if _, dup := seen[k]; dup {
+					viol("range-check: t%d[%d] %s visited key %d twice", h.T, h.I, h.Op.Op, k)
+				}
+				seen[k] = p[1]
+				ok := false
+				if i, found := init.find(int(k)); found && sp.live(init.ents[i]) && init.ents[i].v.eq(p[1]) {
+					ok = true
+				}
+				for j := range ln.History {
+					w := &ln.History[j]
+					if ok {
+						break
+					}
+					if !keyed(w.Op.Op) || int64(w.Op.K) != k || w.Inv > h.Ret {
+						continue
+					}
+					if w.Op.V.Set && w.Op.V.eq(p[1]) {
+						ok = true
+					}
+					if f, good := parseFn(w.Op.Fn); good && w.Op.Fn != "" && !p[1].Nil && f.v == p[1].I {
+						ok = true
+					}
+					// load-or-compute style calls without an explicit value store what they return
+					if w.Res.V.Set && w.Res.V.eq(p[1]) {
+						ok = true
+					}
+				}
+				if !ok {
+					viol("range-check: t%d[%d] %s visited (%d,%s): no call that began before it returned stored that value under that key", h.T, h.I, h.Op.Op, k, p[1])
+				}
+			}
+			vis := h.Op.Visitor
+			if global || (h.Op.Op == "Range" && vis != "" && vis != "all") {
+				continue
+			}
+			for _, e := range init.ents {
+				if touched[e.k] || e.e != 0 {
+					continue
+				}
+				v, found := seen[int64(e.k)]
+				if !found {
+					viol("range-check: t%d[%d] %s did not visit key %d, present and untouched during the whole call", h.T, h.I, h.Op.Op, e.k)
+				} else if !v.eq(e.v) {
+					viol("range-check: t%d[%d] %s visited key %d with %s, it holds %s throughout", h.T, h.I, h.Op.Op, e.k, v, e.v)
+				}
+			}
 		}
 	}
 
